@@ -17,7 +17,7 @@ checks = [
   "The program/call-shape quantifier of C04 is a pure function of the program and is NOT explored beyond the fixed corpus program p6; this check claims the delivery dimension only.",
   TECH + ": seeded chunking/stall schedules of the input stream against a metamorphic oracle"),
  chk("C06", "exploration", "DESIGN.md §4 C06, §10",
-  "Histories of builds and source edits over one shared GOCACHE+GARBLE_CACHE (fixed: every ordered pair of configurations one input apart, edit shapes that change a package's plain build but not its garbled output or vice versa; seeded: random histories of 2-6 operations): after every build the binary must equal the isolated cold reference of that (configuration, source) and behave like the plain build; an immediately repeated build must start no compile/asm child (observed by the simulator, which sees every toolexec process).",
+  "Histories of builds and source edits over one shared GOCACHE+GARBLE_CACHE (fixed: every ordered pair of configurations one input apart, edit shapes that change a package's plain build but not its garbled output or vice versa; seeded: random histories of 2-6 operations): after every build the exit status and the binary must equal those of the isolated cold reference of that (configuration, source); an immediately repeated build of the same configuration and source must start no compile/asm child (observed by the simulator, which sees every toolexec process).",
   "Reference = garble-sim alone on a fresh copy of the same multi-configuration std template; fault-free by definition; runtime randomness held fixed.",
   TECH + " (fault-free configuration): seeded histories against a reference model (the cold build)"),
  chk("C07", "fault_enumeration", "DESIGN.md §4 C07, §10",
@@ -37,7 +37,7 @@ checks = [
   "Process death only (no power loss; garble never fsyncs); a kill inside an uninstrumented writer is emulated as kill at the surrounding exec event plus truncation of its declared output.",
   TECH + ": crash points enumerated over the recorded event sequence, rerun compared with an uninterrupted reference"),
  chk("C19", "fault_enumeration", "DESIGN.md §4 C19, §10",
-  "Commands {build, run, reverse, map} run to completion with outcomes produced by input (type error in a dependency, syntax error, missing body, missing import, bad flags, garble flag after the command, GOGARBLE matching nothing) and by injection (ENOSPC/EACCES/EIO at each gated call in turn, tool exit != 0 at each exec) and with every kind of pre-existing -debugdir target; afterwards the source tree is byte-identical, TMPDIR holds nothing garble created (unless the injected fault was the failure of that very removal), a foreign target is untouched and the command failed, an owned one holds the same trees as a cold build, and no mutating call in the event log touched a path outside {output, TMPDIR, caches, debugdir}.",
+  "Commands {build, run, reverse, map} run to completion with outcomes produced by input (type error in a dependency, syntax error, missing body, missing import, bad flags, garble flag after the command, GOGARBLE matching nothing) and by injection (ENOSPC/EACCES/EIO at each gated call in turn, tool exit != 0 at each exec) and with every kind of pre-existing -debugdir target, plus the history `-debugdir build; edit; build; -debugdir build`; afterwards the source tree is byte-identical, TMPDIR holds nothing garble created (unless the injected fault was the failure of that very removal), a foreign target is untouched and the command failed, an owned one holds the same trees as a cold build, and no mutating call in the event log touched a path outside {output, TMPDIR, caches, debugdir}.",
   "No kills (the property is about commands that return); `garble test` is not exercised (it would need a second std template); accepted -debugdir targets mean full -a rebuilds, of which the quick tier runs one under the gate and the rest outside it (end-state invariants only).",
   TECH + ": I/O errors and tool failures injected at every gated call of recorded runs, end-state and event-log invariants"),
 ]
